@@ -33,6 +33,7 @@
 #include "common.h"
 #include "hio.h"
 #include "md5.h"
+#include "rng.h"
 #include "depackers/depacker.h"
 #include "depackers/arc_unpack.h"
 
@@ -236,6 +237,9 @@ static uint64_t pcm_digest(xmp_context ctx, int nframes, int *rc_start, int *pla
 	uint64_t h = FNV_INIT;
 	int i;
 	*played = 0;
+	/* the per-context random generator is seeded from the clock in xmp_create_context; property C06
+	 * fixes the random state, so pin it: IT random volume/pan variation then renders identically */
+	libxmp_set_random(&((struct context_data *)ctx)->rng, 0x12345678u);
 	*rc_start = xmp_start_player(ctx, 44100, 0);
 	if (*rc_start != 0)
 		return 0;
